@@ -64,7 +64,7 @@ struct Shared {
 }
 
 fn ids_of(vs: &[Val]) -> Vec<u64> {
-  vs.iter().map(|v| v.id).collect()
+  vs.iter().map(|v| v.wid()).collect()
 }
 fn pnote(p: Box<dyn std::any::Any + Send>) -> String {
   format!("{} @ {}", vh_core::panic_message(&*p), vh_core::last_panic_location())
@@ -169,7 +169,7 @@ fn run_sender(sh: Arc<Shared>, tid: usize, log: Arc<Log>, mut h: TxH) {
             TrySendError::Sent(v) => (Out::Sent, v),
           };
           e.out = o;
-          e.back = vec![v.id];
+          e.back = vec![v.wid()];
         }
         Ok(R::Batch(Ok(k))) | Ok(R::TryBatch(Ok(k))) => e.n_ok = k as u32,
         Ok(R::Batch(Err(err))) => {
@@ -617,8 +617,8 @@ fn main() {
       async_ctor: rng.chance(1, 3),
       receivers0: rng.range(1, 3) as usize,
       max_receivers: rng.range(2, 5) as usize,
-      values: *rng.pick(&[10usize, 40, 120, 400]),
-      recv_ops: *rng.pick(&[5usize, 20, 60, 200]),
+      values: if cfg!(miri) { *rng.pick(&[4usize, 8, 14]) } else { *rng.pick(&[10usize, 40, 120, 400]) },
+      recv_ops: if cfg!(miri) { *rng.pick(&[3usize, 6, 12]) } else { *rng.pick(&[5usize, 20, 60, 200]) },
       profile: chaos::Profile::pick(&mut rng),
       gremlin: rng.chance(1, 3),
       batchy: rng.chance(1, 3),
